@@ -232,3 +232,7 @@ fn test_offsetnz() {
         assert_eq!(offsetnz(x), i);
     }
 }
+
+#[cfg(httparse_verif)]
+#[allow(missing_docs, dead_code)]
+pub const VERIF_PROVIDER: &str = "swar";
